@@ -108,6 +108,37 @@ def job_regions_fixed(n, classes=None):
                      funcs=FUNCS, cfg=dict(calls=n, scale="32-bit", size_exponents=classes or "all 3..31"), replay_dir=rdir(), max_paths=400000)
 
 
+def job_io_fixed():
+    """one IO region of ANY size (not only powers of two) and a fixed-origin region, cached or not, with the IO consistency check on:
+    an accepted uncached region lies inside the IO region (declared sizes), an accepted cached one does not"""
+    stubs()
+    from litex.soc.integration.soc import SoCRegion, SoCIORegion, SoCBusHandler, SoCError
+
+    def body(ctx):
+        bus = SoCBusHandler(standard="wishbone", data_width=32, address_width=32)
+        io_o = ctx.int("io_origin", 0, 2**32 - 1)
+        io_s = ctx.int("io_size", 4, 2**32)
+        ctx.assume(io_o + io_s <= 2**32)
+        try:
+            bus.add_region("io", SoCIORegion(origin=io_o, size=io_s, cached=False))
+        except SoCError:
+            return None
+        o = ctx.int("origin", 0, 2**32 - 1)
+        k = ctx.choice("size_exp", [3, 12, 13, 28])
+        s = ctx.int("size", 2**(k - 1) + 1, 2**k)
+        cached = ctx.choice("cached", [False, True])
+        try:
+            bus.add_region("r", SoCRegion(origin=o, size=s, cached=cached))
+        except SoCError:
+            ctx.event("rejected")
+            return None
+        ctx.event("accepted")
+        inside = AND(o >= io_o, o + s <= io_o + io_s)
+        return dict(uncached_region_inside_an_io_region=(inside if not cached else True), cached_region_not_inside_an_io_region=(NOT(inside) if cached else True))
+    return run_pysym("regions_io_fixed", body, ["uncached_region_inside_an_io_region", "cached_region_not_inside_an_io_region"], required_events=["accepted", "rejected"],
+                     funcs=FUNCS, cfg=dict(scale="32-bit", io_region="symbolic origin and size (any size)", region="fixed origin, 4 size classes"), replay_dir=rdir())
+
+
 def job_alloc(aw, with_io, nfixed):
     """pre-state: nfixed fixed regions (+ IO region), then add_region(origin=None) cached / uncached"""
     stubs()
@@ -281,6 +312,7 @@ def jobs(tier):
     T = tier == "thorough"
     js = [Job("regions_fixed_2", job_regions_fixed, dict(n=2, classes=(None if T else [3, 4, 5, 12, 20, 31])), cost=60, timeout_s=7000),
           Job("regions_fixed_3_classes", job_regions_fixed, dict(n=3, classes=([3, 12, 31] if T else [3, 31])), cost=60, timeout_s=3400),
+          Job("regions_io_fixed", job_io_fixed, {}, cost=10, timeout_s=1200),
           Job("alloc_aw5_f2", job_alloc, dict(aw=5, with_io=False, nfixed=2), cost=40, timeout_s=3400),
           Job("alloc_aw5_io_f1", job_alloc, dict(aw=5, with_io=True, nfixed=1), cost=40, timeout_s=3400),
           Job("decoder_dw32", job_decoder, dict(dw=32), cost=5, timeout_s=420), Job("decoder_dw64", job_decoder, dict(dw=64), cost=5, timeout_s=420),
